@@ -259,7 +259,7 @@ def showCState (st : List ((String × Int) × CState)) : String :=
     | .err e => s!"{t}/{p}=E{e}"
     | .val o m => s!"{t}/{p}={o}~{m}")))
 
-def ofetchRef (st : List ((String × Int) × CState)) (req : String) : Option String := do
+def ofetchRef (st : List ((String × Int) × CState)) (req : String) (ver : Int := 5) : Option String := do
   -- "nil" / "empty" user map = all topics of the group (a NULL topics array on the wire): every partition the
   -- group has committed, by topic and ascending partition
   let allTs : List (String × List Int) :=
@@ -279,7 +279,8 @@ def ofetchRef (st : List ((String × Int) × CState)) (req : String) : Option St
       | some (_, .err e) => s!"{p}/-1//{e}"
       | some (_, .val o m) => s!"{p}/{o}/{m}/0"
       | none => s!"{p}/-1//0")
-  pure s!"{groupErr.getD 0};{"|".intercalate body}"
+  -- OffsetFetch has a top-level error code from v2 on; before, a group-level failure is reported on every partition only
+  pure s!"{if ver ≥ 2 then groupErr.getD 0 else 0};{"|".intercalate body}"
 
 def knownTopics : List String := ["a", "b", "c", "d", "e", "ab"]
 
@@ -499,6 +500,28 @@ def step (line : String) : String :=
           | .ok resp => showResponse resp
         answer model (mergeHolds ts rs impl)
       | _, _ => "bad-op"
+    | ["split", rep, iso, r] =>
+      -- topic:part@ts@epoch.…
+      let parsed : Option (List (String × List ReqPart)) := (splitD r "|").mapM fun (t : String) =>
+        match t.splitOn ":" with
+        | [n, ps] => do
+          let ps ← (splitD ps ".").mapM fun (p : String) =>
+            match p.splitOn "@" with
+            | [a, b, e] => do let a ← a.toInt?; let b ← b.toInt?; let e ← e.toInt?; pure (⟨a, e, b⟩ : ReqPart)
+            | _ => none
+          pure (n, ps)
+        | _ => none
+      match parsed, rep.toInt?, iso.toInt? with
+      | some ts, some rep, some iso =>
+        let showSub (q : Request) : String :=
+          "".intercalate (q.topics.flatMap fun (t, ps) => ps.map fun p =>
+            s!"{q.replicaID}/{q.isolation}/{t}/{p.partition}/{p.leaderEpoch}/{p.timestamp}")
+        let model := dash (";".intercalate ((split ⟨rep, iso, ts⟩).map showSub))
+        -- reference: one sub-request per requested entry, in order, each carrying the header and the entry unchanged
+        let want := dash (";".intercalate (ts.flatMap fun (t, ps) => ps.map fun p =>
+          s!"{rep}/{iso}/{t}/{p.partition}/{p.leaderEpoch}/{p.timestamp}"))
+        answer model (impl == want)
+      | _, _, _ => "bad-op"
     | ["clientlo", r, st] =>
       match parseReq r, parseState st with
       | some ts, some st => answer (clientModel ts st) (clientHolds ts st impl)
@@ -517,6 +540,10 @@ def step (line : String) : String :=
       | _, _, _, _, _ => "bad-op"
     | ["ofetch", st, r] =>
       match (parseCState st).bind (ofetchRef · r) with
+      | some want => answer want (impl == want)
+      | none => "bad-op"
+    | ["ofetch", st, r, v] =>
+      match ((v.drop 2).toString.toInt?).bind fun v => (parseCState st).bind (ofetchRef · r v) with
       | some want => answer want (impl == want)
       | none => "bad-op"
     | ["ocommit", st, r] =>
@@ -621,6 +648,29 @@ def step (line : String) : String :=
           answer model holds
         | none => "bad-op"
       | none => "bad-op"
+    | ["fcoffsets", g, ps] =>
+      let parsed : Option (List KV.Mappings.UOFPart) := (splitD ps ",").mapM fun (p : String) =>
+        match p.splitOn "/" with
+        | [i, o, e] => do let i ← i.toInt?; let o ← o.toInt?; let e ← e.toInt?; pure (⟨i, o, "", e⟩ : KV.Mappings.UOFPart)
+        | _ => none
+      match parsed, g.toInt? with
+      | some fetched, some g =>
+        let showM (m : List (Int × Int)) : String :=
+          dash (",".intercalate ((sortBy (fun a b => decide (a.1 < b.1)) m).map fun (p, o) => s!"{p}={o}"))
+        let model := match KV.Mappings.consumerOffsets g fetched with
+          | .error e => s!"err {e} -"
+          | .ok (m, e) => match e with
+            | some (_, code) => s!"err {code} {showM m}"
+            | none => showM m
+        -- reference: a group-level error fails the call; otherwise exactly the partitions answered without error are
+        -- reported with their offsets, and an error is returned iff some partition failed (the first one's code)
+        let good := (fetched.filter (·.error == 0)).map fun p => (p.partition, p.committed)
+        let want := if g != 0 then s!"err {g} -" else
+          match fetched.find? (·.error != 0) with
+          | some f => s!"err {f.error} {showM good}"
+          | none => showM good
+        answer model (impl == want)
+      | _, _ => "bad-op"
     | ["fmeta", c] =>
       match parseCluster c with
       | some m => answer (fmetaModel m) (impl == fmetaRef m)
